@@ -534,10 +534,10 @@ class World:
             # Release the failed writer *now* (a user's except block does the same): a
             # half-closed zipfile/gzip object kept alive by the traceback would flush its
             # buffer into the same inode at some later, arbitrary garbage collection.
-            if self.hold_failed_writer and FORMATS[fmt][1] not in (".npz", ".parquet"):
+            if self.hold_failed_writer and FORMATS[fmt][1] != ".parquet":
                 # the caller retries inside its except block: the failed call's exception (and
                 # whatever it keeps alive) is released only after the next operation.  Not for
-                # NPZ/Parquet, whose half-closed native writers are NumPy's / Arrow's business.
+                # Parquet, whose half-closed native writer is Arrow's business.
                 self.held.append(err)
                 err = err.with_traceback(err.__traceback__)
             else:
